@@ -881,8 +881,9 @@ func (e *Env) evalCall(n *ECall) Val {
 		return v
 	case "callres":
 		// callres(name, n): result of the n-th call named `name` in this function
-		if len(n.Args) != 2 {
-			sfail("callres(name, n)")
+		// callres(name, n, k): its k-th result when the call returns several
+		if len(n.Args) != 2 && len(n.Args) != 3 {
+			sfail("callres(name, n) or callres(name, n, k)")
 		}
 		id, ok := n.Args[0].(*EIdent)
 		if !ok {
@@ -905,6 +906,17 @@ func (e *Env) evalCall(n *ECall) Val {
 		v, found := vc.callResult(id.Name, int(k.V.Int64()))
 		if !found {
 			sfail("callres: no call %s#%d in %s", id.Name, k.V.Int64(), vc.key)
+		}
+		if len(n.Args) == 3 {
+			pk, ok := n.Args[2].(*EInt)
+			if !ok {
+				sfail("callres: k must be a literal")
+			}
+			pi := int(pk.V.Int64())
+			if v.K != KStruct && v.K != KTuple || pi < 0 || pi >= len(v.Fs) {
+				sfail("callres(%s, %d, %d): the call has no such result", id.Name, k.V.Int64(), pi)
+			}
+			return v.Fs[pi]
 		}
 		return v
 	case "ghost":
